@@ -62,6 +62,8 @@ struct StoreInner {
     read_times: Mutex<Vec<std::time::Instant>>,
     lied: Mutex<u64>,
     released: sync::watch::Sender<bool>,
+    /// the replica state written by the node's consensus component (kept across restarts of the node)
+    replica_state: Mutex<validator::ReplicaState>,
 }
 
 #[derive(Clone)]
@@ -89,6 +91,7 @@ impl NetStore {
             read_times: Mutex::new(vec![]),
             lied: Mutex::new(0),
             released: sync::watch::channel(false).0,
+            replica_state: Mutex::new(Default::default()),
         }))
     }
     fn reads(&self) -> Vec<u64> {
@@ -196,13 +199,14 @@ impl EngineInterface for NetStore {
     async fn verify_payload(&self, _ctx: &ctx::Ctx, _n: BlockNumber, _p: &Payload) -> ctx::Result<()> {
         Ok(())
     }
-    async fn propose_payload(&self, _ctx: &ctx::Ctx, _n: BlockNumber) -> ctx::Result<Payload> {
-        Ok(Payload(vec![]))
+    async fn propose_payload(&self, _ctx: &ctx::Ctx, n: BlockNumber) -> ctx::Result<Payload> {
+        Ok(Payload(n.0.to_le_bytes().to_vec()))
     }
     async fn get_state(&self, _ctx: &ctx::Ctx) -> ctx::Result<validator::ReplicaState> {
-        Ok(Default::default())
+        Ok(self.0.replica_state.lock().unwrap().clone())
     }
-    async fn set_state(&self, _ctx: &ctx::Ctx, _s: &validator::ReplicaState) -> ctx::Result<()> {
+    async fn set_state(&self, _ctx: &ctx::Ctx, s: &validator::ReplicaState) -> ctx::Result<()> {
+        *self.0.replica_state.lock().unwrap() = s.clone();
         Ok(())
     }
     async fn push_tx(&self, _ctx: &ctx::Ctx, _tx: Transaction) -> ctx::Result<bool> {
@@ -1439,4 +1443,169 @@ pub fn report_accept_loop(rep: &mut crate::core::Report, seed: u64) -> serde_jso
     }
     serde_json::json!({"raw_peer_behaviours": d.cases, "honest_peer_admitted_afterwards": d.honest_admitted,
         "rule": "the real Network::new + Runner::run (listener, accept-rate limiter, preface dispatch) over loop-back TCP against raw peers that reset / close at once, send garbage, announce a 4 GiB frame and stay silent, or reset in the middle of the first frame; afterwards the component must still run and admit an honest peer; one run per behaviour"})
+}
+
+
+// ---------------------------------------------------------------------------------------------
+// Whole nodes on real networks (C06, sampled): every validator is the real `Network::new` + `Runner::run`
+// wired to the real `bft::Config::run` over a real `EngineManager`, exactly as the executor wires them;
+// the nodes know only a ring of gossip peers, so validators find each other through the address
+// announcements of the loop-back connection, votes travel through `MsgPool` and the consensus RPC, a
+// stopped node catches up through the block fetcher.  One run per listed scenario in real time.
+
+#[derive(Clone, Copy, Debug, PartialEq)]
+pub enum SystemScenario {
+    /// six validators, all running
+    AllUp,
+    /// validator #5 never starts (weight f = 1 of 6): views it leads must time out
+    OneDown,
+    /// validator #0 is stopped after two blocks, the others go on, then it is restarted from its store
+    Restart,
+}
+
+pub struct SystemOutcome {
+    pub cases: u64,
+    pub blocks_finalized: u64,
+    pub viol: Vec<(String, String)>,
+    pub machinery: Vec<String>,
+}
+
+pub fn run_system(seed: u64, scenarios: &[SystemScenario]) -> SystemOutcome {
+    let mut out = SystemOutcome { cases: 0, blocks_finalized: 0, viol: vec![], machinery: vec![] };
+    let rt = tokio::runtime::Builder::new_multi_thread().worker_threads(8).enable_all().build().unwrap();
+    for sc in scenarios {
+        out.cases += 1;
+        match rt.block_on(one_system(seed, *sc)) {
+            Ok((v, blocks)) => {
+                out.blocks_finalized += blocks;
+                out.viol.extend(v.into_iter().map(|(k, w)| (k, format!("[system:{sc:?}] {w}"))));
+            }
+            Err(e) => out.machinery.push(format!("system scenario {sc:?}: {e}")),
+        }
+    }
+    drop(rt);
+    out
+}
+
+async fn one_system(seed: u64, sc: SystemScenario) -> Result<(Vec<(String, String)>, u64), String> {
+    use zksync_consensus_bft as bft;
+    let rng = &mut util::rng(seed, 0x5157 ^ sc as u64);
+    let n = 6usize;
+    let c = util::committee(seed, &[1, 1, 1, 1, 1, 1]);
+    let root = ctx::test_root(&ctx::RealClock);
+    let mut cfgs: Vec<Config> = (0..n).map(|i| make_cfg(rng, Some(c.keys[i].clone()))).collect();
+    // gossip ring: node i dials i+1 and i+2
+    let ids: Vec<(zksync_consensus_roles::node::PublicKey, std::net::SocketAddr)> = cfgs.iter().map(|c| (c.gossip.key.public(), *c.server_addr)).collect();
+    for i in 0..n {
+        for d in 1..=2 {
+            let (k, a) = &ids[(i + d) % n];
+            cfgs[i].gossip.static_outbound.insert(k.clone(), zksync_concurrency::net::Host(a.to_string()));
+        }
+    }
+    let stores: Vec<NetStore> = (0..n).map(|_| NetStore::new(&c.genesis, &[], Lie::Honest, u64::MAX, None)).collect();
+    let stops: Vec<sync::watch::Sender<bool>> = (0..n).map(|_| sync::watch::channel(false).0).collect();
+    // one incarnation of node i: runs until its stop flag is raised; Err(text) if a component ended on its own
+    let spawn_node = |i: usize| {
+        let (cfg, store, key, epoch, mut stop) = (cfgs[i].clone(), stores[i].clone(), c.keys[i].clone(), c.epoch, stops[i].subscribe());
+        tokio::spawn(async move {
+            let root = ctx::test_root(&ctx::RealClock);
+            let (mgr, mgr_runner) = EngineManager::new(&root, Box::new(store), time::Duration::seconds(1)).await.map_err(|e| format!("EngineManager::new: {e:?}"))?;
+            let (consensus_send, consensus_recv) = bft::create_input_channel();
+            let (network_send, network_recv) = ctx::channel::unbounded();
+            let r: Result<(), ctx::Error> = scope::run!(&root, |ctx, s| async move {
+                s.spawn_bg(async move { mgr_runner.run(ctx).await.map_err(|e| ctx::Error::Internal(anyhow::format_err!("engine manager runner: {e:#}"))) });
+                let (_net, runner) = zksync_consensus_network::Network::new(cfg, mgr.clone(), Some(epoch), consensus_send, network_recv)?;
+                s.spawn_bg(async move { runner.run(ctx, false).await.map_err(|e| ctx::Error::Internal(e.context("network component stopped"))) });
+                let bcfg = bft::Config::new(key, 1 << 20, time::Duration::milliseconds(2000), mgr, epoch)?;
+                s.spawn_bg(async move { bcfg.run(ctx, network_send, consensus_recv).await.map_err(|e| ctx::Error::Internal(e.context("consensus component stopped"))) });
+                let _ = sync::wait_for(ctx, &mut stop, |s| *s).await;
+                Ok(())
+            })
+            .await;
+            match r {
+                Ok(()) | Err(ctx::Error::Canceled(_)) => Ok::<(), String>(()),
+                Err(ctx::Error::Internal(e)) => Err(format!("{e:#}")),
+            }
+        })
+    };
+    let _ = &root;
+    let up: Vec<usize> = if sc == SystemScenario::OneDown { (0..n - 1).collect() } else { (0..n).collect() };
+    let mut handles: Vec<Option<tokio::task::JoinHandle<Result<(), String>>>> = (0..n).map(|_| None).collect();
+    for &i in &up {
+        handles[i] = Some(spawn_node(i));
+    }
+    let mut viol: Vec<(String, String)> = vec![];
+    let height = |i: usize| stores[i].stored().len() as u64;
+    let ended = |handles: &Vec<Option<tokio::task::JoinHandle<Result<(), String>>>>| handles.iter().enumerate().find(|(_, h)| h.as_ref().map_or(false, |h| h.is_finished())).map(|x| x.0);
+    let progress = |who: Vec<usize>, want: u64| {
+        let stores = stores.clone();
+        async move { wait_for(150, move || who.iter().all(|&i| stores[i].stored().len() as u64 >= want)).await }
+    };
+    let first_goal = if sc == SystemScenario::Restart { 2 } else { 3 };
+    if !progress(up.clone(), first_goal).await {
+        viol.push(("no_progress_real_network".into(), format!("validators {up:?} of 6 (unit weights) on a loop-back network did not all finalize {first_goal} blocks within 150 s; heights {:?}; a component ended early on node {:?}", (0..n).map(height).collect::<Vec<_>>(), ended(&handles))));
+    } else if sc == SystemScenario::Restart {
+        // stop node 0, the other five (a quorum) go on; then restart node 0 from its store
+        stops[0].send_replace(true);
+        if let Some(h) = handles[0].take() {
+            let _ = tokio::time::timeout(Duration::from_secs(20), h).await;
+        }
+        stops[0].send_replace(false);
+        let h0 = height(0);
+        let others: Vec<usize> = (1..n).collect();
+        let goal = (1..n).map(height).max().unwrap_or(0) + 2;
+        if !progress(others.clone(), goal).await {
+            viol.push(("no_progress_real_network".into(), format!("after validator 0 was stopped the other five did not finalize two more blocks within 150 s; heights {:?}", (0..n).map(height).collect::<Vec<_>>())));
+        } else {
+            handles[0] = Some(spawn_node(0));
+            let goal2 = (1..n).map(height).max().unwrap_or(0) + 1;
+            if !progress((0..n).collect(), goal2).await {
+                viol.push(("lagging_node_did_not_catch_up".into(), format!("validator 0 was restarted from its store at height {h0}; 150 s later the six validators have not all reached height {goal2}: heights {:?}; a component ended early on node {:?}", (0..n).map(height).collect::<Vec<_>>(), ended(&handles))));
+            }
+        }
+    }
+    // forbidden: a component of a running node ended on its own
+    if let Some(i) = ended(&handles) {
+        if let Some(h) = handles[i].take() {
+            let r = h.await;
+            viol.push(("component_stopped".into(), format!("a component of validator {i} ended while the node was running: {r:?}")));
+        }
+    }
+    // forbidden: two validators finalized different blocks for one number
+    let mut blocks = 0u64;
+    let mut by_n: BTreeMap<u64, Vec<validator::Block>> = BTreeMap::new();
+    for st in &stores {
+        for (k, b) in st.stored() {
+            blocks = blocks.max(k + 1);
+            let e = by_n.entry(k).or_default();
+            if !e.iter().any(|x| x.payload() == b.payload()) {
+                e.push(b);
+            }
+        }
+    }
+    for (k, v) in &by_n {
+        if v.len() > 1 {
+            viol.push(("agreement_real_network".into(), format!("validators stored {} different payloads for block {k}", v.len())));
+        }
+    }
+    for s in &stops {
+        s.send_replace(true);
+    }
+    for h in handles.into_iter().flatten() {
+        let _ = tokio::time::timeout(Duration::from_secs(20), h).await;
+    }
+    Ok((viol, blocks))
+}
+
+pub fn report_system(rep: &mut crate::core::Report, seed: u64, scenarios: &[SystemScenario]) -> serde_json::Value {
+    let d = run_system(seed, scenarios);
+    for (k, w) in &d.viol {
+        rep.violations.push(crate::core::Violation { key: format!("gossipnet:{k}"), what: w.clone(), replay: serde_json::json!({"harness": "gossipnet", "config": {"scenario": "system"}, "deviations": []}) });
+    }
+    rep.machinery_errors.extend(d.machinery.iter().cloned());
+    if d.viol.is_empty() && d.machinery.is_empty() && d.blocks_finalized == 0 {
+        rep.machinery_errors.push("vacuous: the whole-node scenarios finalized no block".into());
+    }
+    serde_json::json!({"scenarios": scenarios.iter().map(|s| format!("{s:?}")).collect::<Vec<_>>(), "highest_block_finalized_summed_over_scenarios": d.blocks_finalized,
+        "rule": "six whole validator nodes (real Network::new + Runner::run + bft::Config::run + EngineManager, wired as the executor wires them) on loop-back TCP in real time; validators discover each other through address announcements over a gossip ring; one run per scenario (all up / one validator never starts / one validator stopped and restarted from its store); sampled schedules, not exhaustive"})
 }
